@@ -152,15 +152,15 @@ def run_steps(vdb, rows, steps):
     oi, od, ou = hm._insert_version, hm._delete_version, hm._update_version
 
     def ins(v):
-        stmts.append(["ins", v])
+        stmts.append(["ins", str(v)])
         return oi(v)
 
     def dele(v):
-        stmts.append(["del", v])
+        stmts.append(["del", str(v)])
         return od(v)
 
     def upd(a, b):
-        stmts.append(["upd", a, b])
+        stmts.append(["upd", str(a), str(b)])
         return ou(a, b)
 
     hm._insert_version, hm._delete_version, hm._update_version = ins, dele, upd
@@ -172,7 +172,7 @@ def run_steps(vdb, rows, steps):
         except Exception as e:  # noqa
             return trace, err_name(e)
         db_rows = vdb.rows()
-        trace.append({"rows": db_rows, "stmts": [list(s) for s in stmts], "heads": sorted(hm.heads)})
+        trace.append({"rows": db_rows, "stmts": [list(s) for s in stmts], "heads": sorted(str(h) for h in hm.heads)})
     return trace, None
 
 
